@@ -230,7 +230,15 @@ def run(ctx, out, replay=None):
                 "must_be_refined probed at 5 thresholds before and after every operation; (b) histories on shared objects: "
                 "must_be_refined / refine / uniform / griddify / queries called repeatedly on any allocation built so far, with "
                 "other thresholds and levels, interleaved with rect.fixed set in place (also through a derived allocation "
-                "sharing the cell); non-trivial = at least two cells; distinct by hash")
+                "sharing the cell); (c) THE 1% RULE AGAINST PIECES, systematically (kind x (width, distance) x position of the "
+                "perpendicular cut x side): a wide cell A, a flat neighbour whose side is a line within 1% of A's width from A's "
+                "bottom / top / both (exempt for A as a whole and for every original cell it crosses), a third cell above or "
+                "below A whose side cuts A into a piece narrow enough for the same line to be a due cut (griddify applies the x "
+                "cuts first: the piece must be cut); the transposed layout (the sliver line is an x line, tried before the y cut: "
+                "it stays); two lines closer than 1% of the other side in the middle of a cell (the second is a sliver of the "
+                "piece only); the same with a cell in which the line is a due cut anyway; neighbours optionally fixed; gridded "
+                "again, after a refine, after a flag set in place; (d) large decimal results (1000+ cells, see C02; one in the "
+                "quick tier); non-trivial = at least two cells; distinct by hash")
     cases = []
     if replay and "case" in replay:
         cases.append(fr.unjson(replay["case"]))
